@@ -21,6 +21,7 @@ Vocabulary (all defined in `Lemmas/Ser*.lean`, `Spec/ArchiveImage.lean`):
 import MilaModel.Lemmas.SerObs
 import MilaModel.Lemmas.SerOracle
 import MilaModel.Lemmas.SerSize
+import MilaModel.Lemmas.SjisSub
 
 namespace Mila.Props.C01
 open Mila Mila.BinArchive Mila.Ser Mila.Spec.Image
@@ -105,6 +106,25 @@ theorem parse_serialize (c : Codec) (D : Str → Prop) (a : BinArchive) (wf : Ar
   exact ⟨f, b, hs, hb, hp.endian, rt_size rt, fun i hi => rt_bytes rt i hi, rt_string rt,
     fun p hp => rt_pointer rt hp, fun x h1 h2 => rt_pointer_none rt h1 h2,
     fun q hq x hx => rt_cstring rt hq hx, rt_labels rt⟩
+
+/-- **The `Faithful` hypothesis is met by the codec the driver executes**: the sub-codec `sjisSub`
+(ASCII, half-width katakana, hiragana, full-width katakana, Greek, Cyrillic) encodes every NUL-free
+string over its alphabet, of any length, without error and NUL-free, and decodes it back. -/
+theorem sjisSub_faithful : sjisSub.Faithful Sjis.SubDomain := Mila.sjisSub_faithful
+
+/-- The round trip, unconditionally in the codec, for the executable sub-codec: no assumption about
+the text encoding remains (strings, labels and c-strings range over `Sjis.SubDomain`). -/
+theorem parse_serialize_sjisSub (a : BinArchive) (wf : ArchWF a) (dom : InDomain Sjis.SubDomain a)
+    (small : imageSize sjisSub a < 2 ^ 32) :
+    ∃ f b, serialize sjisSub a = .ok f ∧ parse sjisSub a.endian f = .ok b ∧ b.endian = a.endian ∧
+      b.size = a.size + (cstrPool sjisSub a).length ∧
+      (∀ x, UMap.get b.text x = UMap.get a.text x) ∧
+      (∀ p ∈ a.pointers, UMap.get b.pointers p.1 = some p.2) ∧
+      (∀ q ∈ a.cstrings, ∀ x ∈ q.2, readCString sjisSub b x = .ok (some q.1)) ∧
+      (∀ x, (UMap.get b.labels x).getD [] = (UMap.get a.labels x).getD []) := by
+  obtain ⟨f, b, h1, h2, h3, h4, _, h6, h7, _, h9, h10⟩ :=
+    parse_serialize sjisSub Sjis.SubDomain a wf sjisSub_faithful dom small
+  exact ⟨f, b, h1, h2, h3, h4, h6, h7, h9, h10⟩
 
 /-- Without pending c-strings nothing is appended: same size, and the accessors `read_string` /
 `read_pointer` answer identically on the original and the re-parsed archive at every address. -/
